@@ -29,10 +29,14 @@ def _mle_prinz_dense(
     assert np.all(C_rs > 0)
 
     cdef long i, j = 0
-    cdef double tmp, a, b, c, v, denom = 0
+    cdef double tmp, a, b, c, v, disc, denom = 0
 
     for n_iter in range(max_iter):
         logl = 0
+
+        # re-derive the running row sums from X in every sweep, so that
+        # the rounding of the incremental updates cannot accumulate
+        X_rs = X.sum(axis=1)
 
         for i in range(n_states):
             tmp = X[i,i];
@@ -64,7 +68,13 @@ def _mle_prinz_dense(
                 if (a == 0):
                     v = X[j, i];
                 else:
-                    v = (-b + sqrt((b*b) - (4*a*c))) / (2*a)
+                    # positive root; for b > 0 in the form that does not
+                    # subtract two nearly equal numbers
+                    disc = sqrt((b*b) - (4*a*c))
+                    if b > 0:
+                        v = (-2*c) / (b + disc)
+                    else:
+                        v = (-b + disc) / (2*a)
 
 #                 /* update the row sums */
                 X_rs[i] = X_rs[i] + (v - X[i, j])
